@@ -25,6 +25,8 @@ func init() {
 func runC06(c *Ctx) {
 	w := c.W
 	c06Extras(c)
+	// SelfSigned is CheckSignature's verdict: the verification rules of C03 for the shared verifier apply here too
+	c.borrow(runC03, func(o *Obligation) bool { return strings.Contains(o.Func, "CheckSignatureFromKey") })
 	fn := w.Fn(fnParseCertInt)
 	if fn == nil {
 		c.Undecided("R-PROV", fnParseCertInt, "anchor", "-", "not found")
